@@ -43,7 +43,7 @@ func init() {
 		PropCheck: "prop_bad_ids",
 		Gen:       c16Gen,
 		Run:       c16Run,
-		Rule:      "per key: the generated PoP and candidate strings offered to BLSVerifyPOP (the PoP itself, signatures of the public key bytes under application tags incl. empty, long, prefixes/suffixes of the PoP suite, PoP of another key, bit flips, identity, s+T) plus the converse (the PoP offered to Verify under each tag); keys 1, r-1, random, identity public key; added by the generator audit: 38 application tags (pieces, extensions, doublings, case / separator variants of both suite strings, the suites themselves, NUL and non-UTF8 bytes, lengths at the KMAC rate); the identity key from every constructor (constant, decoded, aggregated, removed, PublicKey() of the zero private key) and the zero private key itself (its PoP is the identity signature and verifies under nothing); the verifying key object from every constructor (decoded, compressed, aggregated, removed, ...) with BLSVerifyPOP as its FIRST use, generated and aggregated private keys, BLSGeneratePOP as the first use of a fresh private key object; wrong candidates offered BEFORE the genuine PoP and the genuine PoP again after all rejected ones; the other key's PoP verified under its own key first, ours under the other, the negated and a decoded copy of the right key; candidates negated, + order-3 point, x + p, all flag combinations, infinity with a stray byte, nil, empty, 49 and 96 bytes; runner-side: BLSGeneratePOP repeatable and its result unchanged, key encoding unchanged, non-BLS and nil keys refused with the typed error also with wrong-length candidates, no panic; distinct by input; limb-sparse private scalars decoded and aggregated",
+		Rule:      "per key: the generated PoP and candidate strings offered to BLSVerifyPOP (the PoP itself, signatures of the public key bytes under application tags incl. empty, long, prefixes/suffixes of the PoP suite, PoP of another key, bit flips, identity, s+T) plus the converse (the PoP offered to Verify under each tag); keys 1, r-1, random, identity public key; added by the generator audit: 38 application tags (pieces, extensions, doublings, case / separator variants of both suite strings, the suites themselves, NUL and non-UTF8 bytes, lengths at the KMAC rate); the identity key from every constructor (constant, decoded, aggregated, removed, PublicKey() of the zero private key) and the zero private key itself (its PoP is the identity signature and verifies under nothing); the verifying key object from every constructor (decoded, compressed, aggregated, removed, ...) with BLSVerifyPOP as its FIRST use, generated and aggregated private keys, BLSGeneratePOP as the first use of a fresh private key object; wrong candidates offered BEFORE the genuine PoP and the genuine PoP again after all rejected ones; the other key's PoP verified under its own key first, ours under the other, the negated and a decoded copy of the right key; candidates negated, + order-3 point, x + p, all flag combinations, infinity with a stray byte, nil, empty, 49 and 96 bytes; runner-side: BLSGeneratePOP repeatable and its result unchanged, key encoding unchanged, non-BLS and nil keys refused with the typed error also with wrong-length candidates, no panic; distinct by input; limb-sparse private scalars decoded and aggregated; slices returned by Encode / EncodeCompressed (public key, both routes) and Encode (private key) overwritten before the PoP is generated and verified",
 		Shard:     2,
 	})
 }
